@@ -376,6 +376,11 @@ def optimize_circuit(seq):
             try:
                 a = q[i]
                 b = q[i + 1]
+                # operations with measured parameters also sit on the wires of the modes they
+                # depend on; merging them on this wire only would leave the other wires stale
+                if a.op.measurement_deps or b.op.measurement_deps:
+                    i += 1
+                    continue
                 # the ops must have equal size and act on the same wires
                 if a.op.ns == b.op.ns and a.reg == b.reg:
                     if a.op.ns != 1:
